@@ -32,6 +32,14 @@
     - Sizes: the event carries the number of octets [sz] that its line occupies including the
       newline (>= 2); check_file_size compares the file size with the threshold in octets
       (check_msg_config has multiplied the configured megabytes by 1024*1024 beforehand).
+      [sz] is UNBOUNDED: the JSON text of an UPDATE is several times longer than the message on
+      the wire (4096 octets), and nothing in start-up may depend on it.  In [scan]/[get_last] a
+      line is a list element, so "the last line, whatever its length" is built in; the section
+      "octet level" below spells the same thing out on octets ([lines_of], [last_line],
+      [newest_line]) and proof/LogSizes.v proves that it returns the last line for every length
+      and that it refines [scan].  The harness drives the code with records of 46 .. 2^20+1
+      octets (restart right after them, rotation thresholds below and above them, torn tails)
+      and compares both levels with the code.
     - [ok] = the payload can be serialised by simplejson (false: an object of an unsupported
       type or bytes that are not UTF-8 somewhere inside the payload).  keepalive_received and
       on_connection_lost log "msg": null and are always serialisable.
